@@ -157,7 +157,7 @@ fn run(ctx: &Ctx, rep: &Report) {
     rep.set_exhaustive(true);
 
     // random longer tuples
-    let nrand: u64 = ctx.tier.pick(100_000, 5_000_000);
+    let nrand: u64 = ctx.tier.pick(100_000, 60_000_000);
     let chunk = 2000u64;
     let name_alpha = ['a', 'B', 'z', '0', '9', '.', '-', '_', '+', 'é'];
     let ver_alpha = ['a', 'Z', '0', '1', '9', '.', '~', '^', '_', '+'];
@@ -256,7 +256,7 @@ fn run(ctx: &Ctx, rep: &Report) {
     });
     rep.eval(nh as u64);
     rep.count("hostile_texts_enumerated", nh as u64);
-    let nrt: u64 = ctx.tier.pick(200_000, 5_000_000);
+    let nrt: u64 = ctx.tier.pick(200_000, 60_000_000);
     par_for(ctx.threads, nrt / chunk, 1, |c| {
         let mut rng = Rng::for_case(ctx.seed, "C15-text", c);
         for _ in 0..chunk {
